@@ -23,7 +23,7 @@ def compact(proj):
     return {
         "queue_len": proj["queue_len"], "main": proj["main"],
         "flows": [{"uid": f["uid"], "name": f["name"], "fid": f["fid"], "status": f["status"], "parent": f["parent"],
-                   "children": f["children"], "activated": f["activated"], "actions": f["actions"],
+                   "children": f["children"], "activated": f["activated"], "actions": f["actions"], "scope_actions": f.get("scope_actions", []),
                    "heads": [{"id": h["id"], "pos": h["pos"], "status": h["status"], "kind": h["kind"], "event": h["event"]}
                              for h in f["heads"]]} for f in proj["flows"]],
         "actions": [{"uid": a["uid"], "status": a["status"]} for a in proj["actions"]],
